@@ -217,21 +217,24 @@ func c20() {
 	}
 	r.Note("faults_hit_by_site_and_mode", hit)
 	// Liveness of the sensor: every transmit site must have been reached by a fault.
+	floor := 20
 	for _, site := range []string{"whole-target-chunk", "final-data", "data-before-match", "data-run", "final-block-flush", "block-flush-before-data", "pending-block-flush"} {
 		for _, mode := range []string{transient, persistent} {
 			if sites[site+"|"+mode] == 0 {
 				r.Inconclusive("site-never-faulted:" + site + "|" + mode)
+				floor = 1 << 30
 				fmt.Printf("ERROR: property=C20 no fault was injected at site %s (%s): the workload does not reach it\n", site, mode)
 			}
 			if sites["tx|"+site+"|"+mode] == 0 {
 				r.Inconclusive("site-never-faulted-through-Transmit:" + site + "|" + mode)
+				floor = 1 << 30
 				fmt.Printf("ERROR: property=C20 no fault was injected at site %s (%s) through Transmit\n", site, mode)
 			}
 		}
 	}
 	r.Assume("only the transport (the transmitter callback / the Encoder) fails; reading the target never fails (Transmit documents read errors as non-terminal and reports them in-band)")
 	r.Assume("the failing call does not deliver its operation; a transient transport accepts every later call")
-	r.Finish("for every input (bounded exhaustive over {a,b}, seeded random with repeated blocks and splices, file sets through Transmit -> scripted Encoder -> DecodeToReceiver -> real receiver) the fault-free run fixes the call sequence; then every call index k is failed once (transient) or from k on (persistent); held = error returned or receiver content equals the target; distinct = distinct (route, transmit site, mode) pairs hit plus distinct success-with-complete-receiver sites", 20)
+	r.Finish("for every input (bounded exhaustive over {a,b}, seeded random with repeated blocks and splices, file sets through Transmit -> scripted Encoder -> DecodeToReceiver -> real receiver) the fault-free run fixes the call sequence; then every call index k is failed once (transient) or from k on (persistent); held = error returned or receiver content equals the target; distinct = distinct (route, transmit site, mode) pairs hit plus distinct success-with-complete-receiver sites", floor)
 }
 
 // ---------------------------------------------------------------------------
